@@ -1,15 +1,17 @@
 #pragma once
 #include "c05x_pair.h"
-const void *g_t[C5_N];
+c5_id g_t[C5_N];
 int g_val[C5_N], g_inf[C5_N], g_onc[C5_N], g_sgn[C5_N], g_zer[C5_N], g_cmpn[C5_N], g_cpy[C5_N], g_mulb[C5_N];
 int g_inf_other;
-int g_pair_calls, g_pair_m, g_pair_all2; const void *g_pair_r, *g_pair_p, *g_pair_q;
-int g_cmp_calls, g_cmp; const void *g_cmp_a, *g_cmp_b;
+int g_pair_calls, g_pair_m, g_pair_all2; c5_id g_pair_r, g_pair_p, g_pair_q;
+int g_cmp_calls, g_cmp; c5_id g_cmp_a, g_cmp_b;
 int g_unity_calls, g_unity_ok;
 int g_md_calls, g_read_calls, g_mod_calls, g_mulgen_calls, g_mul_calls, g_add_calls, g_norm_calls;
-size_t g_read_len; const void *g_read_a, *g_read_bin, *g_md_msg, *g_md_out; size_t g_md_len;
-const void *g_mod_c, *g_mod_a, *g_mod_m, *g_ord_n;
-const void *g_mulgen_r, *g_mulgen_k, *g_mul_r, *g_mul_p, *g_mul_k, *g_add_r, *g_add_p, *g_add_q, *g_norm_r, *g_norm_p;
-const void *g_neg_r, *g_gen_r, *g_sub_r, *g_sub_p, *g_sub_q;
+size_t g_read_len; c5_id g_read_a, g_read_bin, g_md_msg, g_md_out; size_t g_md_len;
+c5_id g_mod_c, g_mod_a, g_mod_m, g_ord_n;
+c5_id g_mulgen_r, g_mulgen_k, g_mul_r, g_mul_p, g_mul_k, g_add_r, g_add_p, g_add_q, g_norm_r, g_norm_p;
+c5_id g_neg_r, g_gen_r, g_sub_r, g_sub_p, g_sub_q;
 int g_wr_calls; size_t g_sz;
 size_t g_szr, g_szo;
+c5_id g_sid[C5_S]; int g_src[C5_S]; int g_sovf;
+int g_eq_p0[C5_E], g_eq_q0[C5_E], g_eq_p1[C5_E], g_eq_q1[C5_E], g_eq_un[C5_E];
